@@ -94,6 +94,13 @@ func (r *Recorder) Counts() (traces, events int) {
 	return r.traces, r.events
 }
 
+// Flush writes buffered lines to the file (so that a crash of the driver keeps the trace so far).
+func (r *Recorder) Flush() error {
+	r.mu.Lock()
+	defer r.mu.Unlock()
+	return r.w.Flush()
+}
+
 func (r *Recorder) Close() error {
 	r.mu.Lock()
 	defer r.mu.Unlock()
